@@ -343,7 +343,7 @@ func (fc *fnCtx) execIndexAddr(st *state, i *ssa.IndexAddr) {
 	case *types.Slice:
 		x := fc.val(i.X)
 		fc.safety(st, "index-in-range", fmt.Sprintf("(and (<= 0 %s) (< %s (slen %s)))", idx.T, idx.T, x.T), i.Pos())
-		fc.env[i] = &Addr{kind: aElem, slice: x, idx: idx.T, typ: t.Elem()}
+		fc.env[i] = &Addr{kind: aElem, slice: x, idx: idx.T, typ: t.Elem(), foreign: foreignSlice(i.X, map[ssa.Value]bool{})}
 	case *types.Pointer:
 		arr, ok := t.Elem().Underlying().(*types.Array)
 		if !ok {
